@@ -457,10 +457,43 @@ static void w_end(long evals, long nontrivial) {
 static std::string v3s(const V3 &p) { return fmt("(%.17g,%.17g,%.17g)", p.x(), p.y(), p.z()); }
 
 struct Tol {
-  double L;     // largest box side
-  double delta; // assumed absolute accuracy of a computed vertex position: 1e-10 L (k = 4.5e5 eps)
-  double Amin;  // faces below this area are ignored: 1e-12 L^2
+  double L;       // largest box side
+  double delta;   // absolute accuracy granted to a computed vertex position
+  double Amin;    // faces below this area are ignored: 1e-12 L^2
+  double rel_sum; // relative tolerance of the volume sum and of the wall area sums
+  double extra;   // part of delta beyond the baseline 1e-10 L (conditioning / old tolerance)
 };
+
+/// Tolerances, derived once per case and construction:
+///  baseline        delta0 = 1e-10 L                    (k = 4.5e5 eps; DESIGN.md value)
+///  conditioning    d_fp   = 16 eps L^2 / s_min          circumcentres / plane intersections of points
+///                  s_min apart (generators and their wall mirror images) lose a factor L / s_min
+///  old tolerance   d_old  = 4 eps_old / s_gen,          eps_old = OLDVORONOI_TOLERANCE |sides|^2: the old
+///                  construction snaps a vertex within eps_old / |p| (|p| = half a generator distance) of a
+///                  cutting plane onto it
+///  delta = max(delta0, d_fp [, d_old]);  rel_sum = max(1e-10, 12 (d_fp [+ d_old]) / L)
+static Tol make_tol(const Case &c, bool is_old) {
+  Tol T;
+  T.L = std::max(c.sides.x(), std::max(c.sides.y(), c.sides.z()));
+  double s_gen = DBL_MAX, s_wall = DBL_MAX;
+  const size_t n = c.gen.size();
+  for (size_t i = 0; i < n; ++i) {
+    for (size_t j = i + 1; j < n; ++j)
+      s_gen = std::min(s_gen, (c.gen[i] - c.gen[j]).norm());
+    for (int a = 0; a < 3; ++a) {
+      s_wall = std::min(s_wall, 2. * (c.gen[i][a] - c.anchor[a]));
+      s_wall = std::min(s_wall, 2. * (c.anchor[a] + c.sides[a] - c.gen[i][a]));
+    }
+  }
+  const double s_min = std::min(s_gen, s_wall);
+  const double d_fp = 16. * DBL_EPSILON * T.L * T.L / s_min;
+  const double d_old = is_old ? 4. * OLDVORONOI_TOLERANCE * c.sides.norm2() / s_gen : 0.;
+  T.extra = d_fp + d_old;
+  T.delta = std::max(1.e-10 * T.L, T.extra);
+  T.Amin = 1.e-12 * T.L * T.L;
+  T.rel_sum = std::max(1.e-10, 12. * T.extra / T.L);
+  return T;
+}
 
 struct FaceGeom {
   V3 N;     // area vector from the ordered vertices (Newell)
@@ -486,15 +519,22 @@ static FaceGeom face_geometry(const FaceD &F) {
 }
 
 /// all checks on one constructed grid. `who` = "new" | "old". Returns true if no violation.
+typedef std::vector< std::pair< std::string, std::string > > Findings;
+static void write_findings(const Findings &F, const std::string &suffix) {
+  std::set< std::string > seen;
+  for (const auto &f : F)
+    if (seen.insert(f.first).second) // first of each class per case
+      w_violation(f.first + suffix, f.second);
+}
+
 static bool validate(const char *who, const Case &c, const GridD &D, const std::vector< V3 > &queries,
-                     const Tol &T, bool report) {
+                     const Tol &T, Findings &found) {
   const size_t n = c.gen.size();
   bool ok = true;
   const std::string pre = fmt("C15:%s:", who);
   auto bad = [&](const char *what, const std::string &detail) {
     ok = false;
-    if (report)
-      w_violation(pre + what + ":" + c.family, fmt("case %s: ", c.name.c_str()) + detail);
+    found.push_back(std::make_pair(pre + what + ":" + c.family, fmt("case %s: ", c.name.c_str()) + detail));
   };
   const double V = c.sides.x() * c.sides.y() * c.sides.z();
   // 1. volumes
@@ -509,10 +549,11 @@ static bool validate(const char *who, const Case &c, const GridD &D, const std::
   {
     const double err = std::fabs(sum - V) / V;
     w_max(fmt("%s_max_rel_volume_sum_error", who), std::isfinite(err) ? err : 1e300);
-    if (!(err <= 1.e-10))
+    w_max(fmt("%s_max_volume_sum_error_over_tol", who), std::isfinite(err) ? err / T.rel_sum : 1e300);
+    if (!(err <= T.rel_sum))
       bad("volume-sum", fmt("cell volumes sum to %.17g, box volume %.17g (relative error %.3g, %zu cells)",
                             sum, V, err, n));
-    else if (err > 1.e-11)
+    else if (err > 0.1 * T.rel_sum)
       w_count(fmt("%s_volume_sum_within_10x_of_tolerance", who));
   }
   // 2. faces
@@ -521,6 +562,7 @@ static bool validate(const char *who, const Case &c, const GridD &D, const std::
     const CellD &Ci = D.cells[i];
     V3 closed(0.);
     double closed_tol = 0.;
+    std::set< size_t > partner_done;
     for (size_t k = 0; k < Ci.faces.size(); ++k) {
       const FaceD &F = Ci.faces[k];
       w_count(fmt("%s_faces", who));
@@ -612,44 +654,66 @@ static bool validate(const char *who, const Case &c, const GridD &D, const std::
                                       "neighbour %s (area %.3g)",
                                       i, j, v3s(nrm).c_str(), v3s(u).c_str(), F.area));
       }
-      // partner
-      const FaceD *best = nullptr;
-      for (const FaceD &Gf : D.cells[j].faces)
-        if (Gf.ngb == i && !std::isnan(Gf.area))
-          if (!best || std::fabs(Gf.area - F.area) < std::fabs(best->area - F.area))
-            best = &Gf;
-      if (!best) {
+      // partner: all faces of cell i with neighbour j taken together (a construction may split the
+      // common face) against all faces of cell j with neighbour i
+      if (partner_done.count(j))
+        continue;
+      partner_done.insert(j);
+      struct Agg {
+        double A = 0., P = 0., D = 0.;
+        V3 M = V3(0.), N = V3(0.);
+        int count = 0;
+      } a, b;
+      auto collect = [&](const CellD &cell, size_t ngb, const V3 &dir, Agg &g) {
+        for (const FaceD &Ff : cell.faces) {
+          if (Ff.ngb != ngb || !(Ff.area > 0.) || std::isnan(Ff.mid.x() + Ff.mid.y() + Ff.mid.z()))
+            continue;
+          const FaceGeom Gg = face_geometry(Ff);
+          g.A += Ff.area;
+          g.M += Ff.area * Ff.mid;
+          g.N += (V3::dot_product(Gg.N, dir) < 0. ? -1. : 1.) * Gg.N;
+          g.P += Gg.P;
+          g.D = std::max(g.D, Gg.D);
+          ++g.count;
+        }
+        if (g.A > 0.)
+          g.M /= g.A;
+      };
+      collect(Ci, j, u, a);
+      collect(D.cells[j], i, u, b);
+      if (a.count > 1)
+        w_count(fmt("%s_common_faces_split_in_several_polygons(info)", who));
+      if (b.count == 0) {
         bad("face-without-partner", fmt("cell %zu has a face of area %.6g (midpoint %s) with cell %zu, which has no "
                                         "face with cell %zu",
-                                        i, F.area, v3s(F.mid).c_str(), j, i));
+                                        i, a.A, v3s(a.M).c_str(), j, i));
         continue;
       }
-      const FaceGeom G2 = face_geometry(*best);
-      const double tolA = 2. * (G.P + G2.P) * T.delta + 1.e-12 * F.area;
+      const double tolA = 2. * (a.P + b.P) * T.delta + 1.e-12 * a.A;
       {
-        const double e = std::fabs(best->area - F.area);
+        const double e = std::fabs(b.A - a.A);
         w_max(fmt("%s_max_partner_area_error_over_tol", who), e / tolA);
         if (e > tolA)
-          bad("partner-area", fmt("cells %zu/%zu: face areas %.17g and %.17g differ by %.3g (tol %.3g)", i, j,
-                                  F.area, best->area, e, tolA));
+          bad("partner-area", fmt("cells %zu/%zu: face areas %.17g and %.17g differ by %.3g (tol %.3g)", i, j, a.A,
+                                  b.A, e, tolA));
         else if (e > 0.1 * tolA)
           w_count(fmt("%s_partner_area_within_10x_of_tolerance", who));
       }
-      if (best->area > T.Amin) {
-        const double e = (best->mid - F.mid).norm();
-        const double tm = tol_mid + 2. * T.delta * (1. + 2. * G2.P * G2.D / best->area);
+      if (b.A > T.Amin) {
+        const double e = (b.M - a.M).norm();
+        const double tm = 2. * T.delta * (2. + 2. * a.P * a.D / a.A + 2. * b.P * b.D / b.A);
         w_max(fmt("%s_max_partner_midpoint_error_over_tol", who), e / tm);
         if (e > tm)
           bad("partner-midpoint", fmt("cells %zu/%zu: face midpoints %s and %s differ by %.3g (tol %.3g)", i, j,
-                                      v3s(F.mid).c_str(), v3s(best->mid).c_str(), e, tm));
+                                      v3s(a.M).c_str(), v3s(b.M).c_str(), e, tm));
         else if (e > 0.1 * tm)
           w_count(fmt("%s_partner_midpoint_within_10x_of_tolerance", who));
-        // opposite orientation: the outward normals are +-u by the check above; here the two polygons
-        // must span the same plane with the same area vector up to the sign
-        const double en = std::min((G.N + G2.N).norm(), (G.N - G2.N).norm());
-        if (en > 2. * (G.P + G2.P) * T.delta + 1.e-12 * F.area)
-          bad("partner-orientation", fmt("cells %zu/%zu: area vectors %s and %s are not (anti)parallel (|diff| %.3g)",
-                                         i, j, v3s(G.N).c_str(), v3s(G2.N).c_str(), en));
+        // opposite orientation: the outward normals are +-u by the per-polygon check; the area vectors
+        // (brought to the same sign) of the two sides span the same plane
+        const double en = (a.N - b.N).norm();
+        if (en > 2. * (a.P + b.P) * T.delta + 1.e-12 * a.A)
+          bad("partner-orientation", fmt("cells %zu/%zu: area vectors %s and %s do not match (|diff| %.3g)", i, j,
+                                         v3s(a.N).c_str(), v3s(b.N).c_str(), en));
       }
     }
     if (closed.norm() > 2. * closed_tol + 1.e-12 * T.L * T.L)
@@ -661,7 +725,7 @@ static bool validate(const char *who, const Case &c, const GridD &D, const std::
     const double A = c.sides[(axis + 1) % 3] * c.sides[(axis + 2) % 3];
     const double err = std::fabs(wall_area[w] - A) / A;
     w_max(fmt("%s_max_rel_wall_area_error", who), err);
-    if (!(err <= 1.e-9))
+    if (!(err <= 10. * T.rel_sum))
       bad("wall-area-sum", fmt("faces on wall %d sum to %.17g, wall area %.17g", w, wall_area[w], A));
   }
   // 3. get_index = nearest generator
@@ -714,23 +778,34 @@ static void compare(const Case &c, const GridD &N, const GridD &O, const Tol &T,
   w_max("old_vs_new_neighbour_area_threshold_over_L2", Acmp / (T.L * T.L));
   bool vbad = false, cbad = false, nbad = false;
   for (size_t i = 0; i < n; ++i) {
-    const double ev = std::fabs(N.cells[i].vol - O.cells[i].vol) / V;
-    w_max("old_vs_new_max_volume_diff_over_box_volume", ev);
-    if (!(ev <= 1.e-10)) {
+    // surface area and extent of the cell (from the new construction) scale the allowance
+    double Ai = 0., Di = 0.;
+    for (const FaceD &F : N.cells[i].faces)
+      if (F.area > T.Amin) {
+        Ai += F.area;
+        Di = std::max(Di, 2. * (F.mid - c.gen[i]).norm());
+      }
+    const double tolv = 1.e-10 * V + Ai * T.extra;
+    const double ev = std::fabs(N.cells[i].vol - O.cells[i].vol);
+    w_max("old_vs_new_max_volume_diff_over_tol", ev / tolv);
+    w_max("old_vs_new_max_volume_diff_over_box_volume", ev / V);
+    if (!(ev <= tolv)) {
       if (!vbad)
-        bad("volume", fmt("cell %zu: new volume %.17g, old volume %.17g (box %.6g)", i, N.cells[i].vol,
-                          O.cells[i].vol, V));
+        bad("volume", fmt("cell %zu: new volume %.17g, old volume %.17g (difference %.3g, tol %.3g)", i,
+                          N.cells[i].vol, O.cells[i].vol, ev, tolv));
       vbad = true;
-    } else if (ev > 1.e-11)
+    } else if (ev > 0.1 * tolv)
       w_count("old_vs_new_volume_within_10x_of_tolerance");
-    const double ec = (N.cells[i].cen - O.cells[i].cen).norm() / T.L;
-    w_max("old_vs_new_max_centroid_diff_over_L", ec);
-    if (!(ec <= 1.e-9)) {
+    const double tolc = 1.e-9 * T.L + T.extra * Ai * Di / N.cells[i].vol;
+    const double ec = (N.cells[i].cen - O.cells[i].cen).norm();
+    w_max("old_vs_new_max_centroid_diff_over_tol", ec / tolc);
+    w_max("old_vs_new_max_centroid_diff_over_L", ec / T.L);
+    if (!(ec <= tolc)) {
       if (!cbad)
-        bad("centroid", fmt("cell %zu: new centroid %s, old centroid %s", i, v3s(N.cells[i].cen).c_str(),
-                            v3s(O.cells[i].cen).c_str()));
+        bad("centroid", fmt("cell %zu: new centroid %s, old centroid %s (distance %.3g, tol %.3g)", i,
+                            v3s(N.cells[i].cen).c_str(), v3s(O.cells[i].cen).c_str(), ec, tolc));
       cbad = true;
-    } else if (ec > 1.e-10)
+    } else if (ec > 0.1 * tolc)
       w_count("old_vs_new_centroid_within_10x_of_tolerance");
     for (int dir = 0; dir < 2; ++dir) {
       const CellD &A = dir ? O.cells[i] : N.cells[i];
@@ -754,6 +829,118 @@ static void compare(const Case &c, const GridD &N, const GridD &O, const Tol &T,
       }
     }
   }
+}
+
+// ---------------------------------------------------------------------------
+// precondition monitor and diagnosis of a failed new construction (reads private state)
+// ---------------------------------------------------------------------------
+
+/// every coordinate handed to the exact predicates must lie in [1,2) (C17 / NewVoronoiGrid.cpp:124-190):
+/// rescaled generators, their six wall copies and the four corners of the enclosing tetrahedron
+static bool rescaled_outside_range(const Case &c, std::string &what) {
+  const NewVoronoiGrid g(c.gen, Box<>(c.anchor, c.sides));
+  auto in_range = [](const V3 &p) {
+    return p.x() >= 1. && p.x() < 2. && p.y() >= 1. && p.y() < 2. && p.z() >= 1. && p.z() < 2.;
+  };
+  for (int k = 0; k < 4; ++k) {
+    const V3 p = g._real_rescaled_box.get_position(NEWVORONOICELL_BOX_CORNER0 + k, g._real_rescaled_positions[0]);
+    if (!in_range(p)) {
+      what = fmt("corner %d of the enclosing tetrahedron is rescaled to (%a,%a,%a) = %s", k, p.x(), p.y(), p.z(),
+                 v3s(p).c_str());
+      return true;
+    }
+  }
+  for (size_t i = 0; i < c.gen.size(); ++i) {
+    if (!in_range(g._real_rescaled_positions[i])) {
+      what = fmt("generator %zu %s is rescaled to %s", i, v3s(c.gen[i]).c_str(),
+                 v3s(g._real_rescaled_positions[i]).c_str());
+      return true;
+    }
+    for (int w = 0; w < 6; ++w) {
+      const V3 p = g._real_rescaled_box.get_position(NEWVORONOICELL_BOX_LEFT + w, g._real_rescaled_positions[i]);
+      if (!in_range(p)) {
+        what = fmt("wall copy %d of generator %zu is rescaled to %s", w, i, v3s(p).c_str());
+        return true;
+      }
+    }
+  }
+  return false;
+}
+
+/// does the Delaunay structure of some cell contain a tetrahedron (with the generator as vertex) that the
+/// predicates accepted on the rescaled coordinates but that is flat in the real coordinates the geometry
+/// (circumcentres) is computed from?
+static bool flat_real_tetrahedron(const Case &c, std::string &what) {
+  if (c.gen.size() > 400)
+    return false;
+  const NewVoronoiGrid g(c.gen, Box<>(c.anchor, c.sides));
+  NewVoronoiCellConstructor C;
+  for (size_t i = 0; i < c.gen.size(); ++i) {
+    C.setup(i, g._real_generator_positions, g._real_voronoi_box, g._real_rescaled_positions, g._real_rescaled_box,
+            true);
+    for (size_t j = 0; j < c.gen.size(); ++j)
+      if (j != i)
+        C.intersect(j, g._real_rescaled_box, g._real_rescaled_positions, g._real_voronoi_box,
+                    g._real_generator_positions);
+    for (uint_fast32_t t = 0; t < C._tetrahedra_size; ++t) {
+      const NewVoronoiTetrahedron &Tt = C._tetrahedra[t];
+      if (!Tt.is_active())
+        continue;
+      bool has0 = false;
+      V3 p[4];
+      for (int k = 0; k < 4; ++k) {
+        if (Tt.get_vertex(k) == 0)
+          has0 = true;
+        p[k] = C.get_position(C._vertices[Tt.get_vertex(k)], g._real_voronoi_box, g._real_generator_positions);
+      }
+      if (!has0)
+        continue;
+      const V3 a = p[1] - p[0], b = p[2] - p[0], d = p[3] - p[0];
+      const double vol = std::fabs(V3::dot_product(a, V3::cross_product(b, d)));
+      double l = 0.;
+      for (int k = 0; k < 4; ++k)
+        for (int m = k + 1; m < 4; ++m)
+          l = std::max(l, (p[k] - p[m]).norm());
+      if (vol <= 1.e-9 * l * l * l) {
+        what = fmt("cell %zu: Delaunay tetrahedron %s %s %s %s has real volume %.3g (longest edge %.3g)", i,
+                   v3s(p[0]).c_str(), v3s(p[1]).c_str(), v3s(p[2]).c_str(), v3s(p[3]).c_str(), vol / 6., l);
+        return true;
+      }
+    }
+  }
+  return false;
+}
+
+/// the diagnosis drives the real constructor again on an input it already mishandled: run it in a child
+static std::string diagnose_forked(const Case &c, std::string &what) {
+  int fd[2];
+  if (pipe(fd) != 0)
+    return ":unclassified";
+  fflush(nullptr);
+  const pid_t pid = fork();
+  if (pid == 0) {
+    close(fd[0]);
+    alarm(60);
+    std::string w;
+    const bool flat = flat_real_tetrahedron(c, w);
+    const std::string msg = (flat ? "1" : "0") + w;
+    if (write(fd[1], msg.data(), msg.size()) < 0) {
+    }
+    _exit(0);
+  }
+  close(fd[1]);
+  std::string msg;
+  char buf[4096];
+  ssize_t r;
+  while ((r = read(fd[0], buf, sizeof(buf))) > 0)
+    msg.append(buf, r);
+  close(fd[0]);
+  int status = 0;
+  waitpid(pid, &status, 0);
+  if (!(WIFEXITED(status) && WEXITSTATUS(status) == 0) || msg.empty())
+    return ":unclassified";
+  what = msg.substr(1);
+  return msg[0] == '1' ? ":flat-real-tetrahedron" : ":unclassified";
 }
 
 static bool identical(const GridD &A, const GridD &B, std::string &what) {
@@ -800,21 +987,43 @@ static std::vector< V3 > query_lattice(const Case &c) {
 /// everything for one case, inside the worker
 static void run_case(const Case &c, int stage_timeout, bool verbose) {
   const std::vector< V3 > Q = query_lattice(c);
-  Tol T;
-  T.L = std::max(c.sides.x(), std::max(c.sides.y(), c.sides.z()));
-  T.delta = 1.e-10 * T.L;
-  T.Amin = 1.e-12 * T.L * T.L;
+  const Tol T = make_tol(c, false);
+  const Tol TO = make_tol(c, true);
   long evals = 0;
   GridD N, O;
   alarm(stage_timeout);
+  // precondition of the exact predicates
+  w_begin("new-precondition");
+  std::string regime;
+  {
+    std::string what;
+    if (rescaled_outside_range(c, what)) {
+      regime = ":rescaled-coordinate-outside-[1,2)";
+      w_violation("C15:new:rescaled-coordinate-outside-[1,2):" + c.family,
+                  fmt("case %s (box sides %s): %s; the exact predicates read the 52-bit mantissa and require "
+                      "coordinates in [1,2)",
+                      c.name.c_str(), v3s(c.sides).c_str(), what.c_str()));
+    }
+  }
   w_begin("new");
   construct(true, c, 1, Q, N);
   ++evals;
   w_begin("new-check");
-  const bool nok = validate("new", c, N, Q, T, true);
+  Findings fn;
+  const bool nok = validate("new", c, N, Q, T, fn);
   w_count(nok ? "new_valid" : "new_invalid");
+  if (!nok) {
+    if (regime.empty()) {
+      std::string what;
+      regime = diagnose_forked(c, what);
+      if (!what.empty())
+        for (auto &f : fn)
+          f.second += " [diagnosis: " + what + "]";
+    }
+    write_findings(fn, regime);
+  }
   if (verbose)
-    printf("  new construction: %s, %zu cells\n", nok ? "valid" : "INVALID", N.cells.size());
+    printf("  new construction: %s%s, %zu cells\n", nok ? "valid" : "INVALID", regime.c_str(), N.cells.size());
   if (c.threads > 1) {
     GridD N2;
     alarm(stage_timeout);
@@ -828,7 +1037,9 @@ static void run_case(const Case &c, int stage_timeout, bool verbose) {
                       c.threads, what.c_str()));
     else
       w_count("new_threaded_identical_to_serial");
-    validate("new", c, N2, Q, T, true);
+    Findings f2;
+    if (!validate("new", c, N2, Q, T, f2) && nok)
+      write_findings(f2, ":threaded");
   }
   if (c.run_old) {
     alarm(stage_timeout);
@@ -837,14 +1048,17 @@ static void run_case(const Case &c, int stage_timeout, bool verbose) {
     ++evals;
     w_begin("old-check");
     // outside its domain the old construction is only observed
-    const bool ook = validate("old", c, O, Q, T, c.old_in_domain);
+    Findings fo;
+    const bool ook = validate("old", c, O, Q, TO, fo);
+    if (c.old_in_domain)
+      write_findings(fo, "");
     if (verbose)
       printf("  old construction: %s (%s its domain)\n", ook ? "valid" : "INVALID",
              c.old_in_domain ? "inside" : "outside");
     if (c.old_in_domain) {
       w_count(ook ? "old_valid" : "old_invalid");
       if (ook && nok)
-        compare(c, N, O, T, "C15:old-vs-new:");
+        compare(c, N, O, TO, "C15:old-vs-new:");
     } else {
       w_count(ook ? "old_outside_domain_valid(info)" : "old_outside_domain_invalid(info)");
       if (!ook)
@@ -1074,9 +1288,12 @@ static int run_pool(const Provider &P, Result &R, const Args &A, int nworkers, i
           cnt["old_outside_domain_abnormal_end(info):" + c.family + ":" + how] += 1;
           R.evaluations += 1; // the new construction of this case completed
         } else {
-          R.violation(fmt("C15:%s:abnormal-end:%s:%s", is_old ? "old" : "new", c.family.c_str(),
-                          how.substr(0, how.find('(')).c_str()),
-                      detail,
+          std::string regime, what;
+          if (!is_old && rescaled_outside_range(c, what))
+            regime = ":rescaled-coordinate-outside-[1,2)";
+          R.violation(fmt("C15:%s:abnormal-end:%s:%s%s", is_old ? "old" : "new", c.family.c_str(),
+                          how.substr(0, how.find('(')).c_str(), regime.c_str()),
+                      detail + (what.empty() ? "" : " [" + what + "]"),
                       fmt("{\"mode\": \"%s\", \"case\": \"%s\", \"seed\": %ld}", P.mode.c_str(), c.name.c_str(),
                           P.seed));
         }
